@@ -114,3 +114,65 @@ func strconvFloatBits(f float64) string {
 	}
 	return string(out)
 }
+
+// Partition computes the reference key classes (lists of row numbers in frame order,
+// classes ordered by their first row). With nullEq false every row with a null key cell is a class of its own.
+func Partition(f *Frame, keys []string, nullEq bool) [][]int {
+	n := f.Len()
+	if len(keys) == 0 {
+		if n == 0 {
+			return nil
+		}
+		all := make([]int, n)
+		for i := range all {
+			all[i] = i
+		}
+		return [][]int{all}
+	}
+	cols := make([]*Col, len(keys))
+	for i, k := range keys {
+		cols[i] = f.Col(k)
+	}
+	idx := map[string]int{}
+	var classes [][]int
+	var sb strings.Builder
+	for r := 0; r < n; r++ {
+		sb.Reset()
+		hasNull := false
+		for _, c := range cols {
+			if c.IsNull(r) {
+				hasNull = true
+			}
+			ks := KeyString(c, r)
+			sb.WriteString(strconvItoa(len(ks)))
+			sb.WriteByte(':')
+			sb.WriteString(ks)
+		}
+		if hasNull && !nullEq {
+			classes = append(classes, []int{r})
+			continue
+		}
+		k := sb.String()
+		if ci, ok := idx[k]; ok {
+			classes[ci] = append(classes[ci], r)
+		} else {
+			idx[k] = len(classes)
+			classes = append(classes, []int{r})
+		}
+	}
+	return classes
+}
+
+func strconvItoa(n int) string {
+	if n == 0 {
+		return "0"
+	}
+	var b [20]byte
+	i := len(b)
+	for n > 0 {
+		i--
+		b[i] = byte('0' + n%10)
+		n /= 10
+	}
+	return string(b[i:])
+}
